@@ -743,6 +743,16 @@ package bkl
 //@   at call NewDocumentWithData#1
 //@     assert (and (=> (decShape elem) (canon doc)) (=> ((_ is VI64) elem) (= doc (VInt (lv elem)))))            [C04]
 //
+//@ func Document.AddParents(d, parents) ()
+//@   property C02
+//@   modifies Document.Parents[d]
+//@   ensures (= (heap Document.Parents) (store (old (heap Document.Parents)) d (rapp (old (Document.Parents d)) parents)))        [C02]
+//
+//@ func file.setParents(f) ()
+//@   property C02
+//@   modifies Document.Parents
+//@   ensures (= (heap Document.Data) (old (heap Document.Data)))
+//
 //@ func Parser.loadFileAndParents(p, path, child) (res, err)
 //@   property C03
 //@   uses rlastSnoc
